@@ -124,6 +124,7 @@ fn classify(case: &Case, arch: &std::path::Path, cx: &mut Cx) {
     cx.label_if(neg_frac, "pre1970-with-nanos");
     cx.label_if(combined && multi_block, "combined+multiblock");
     cx.label_if(t.0.len() <= 2, "tiny-tree");
+    cx.label_if(t.max_depth() > 8, "deeper-than-8-levels");
     cx.label_if(ra.blocks.len() > 100, ">100-blocks");
     cx.label_if(hunks > 10_000, ">10000-hunks");
     cx.nontrivial = nonempty_file && feats >= 2;
